@@ -144,7 +144,11 @@ def rule_r3(ctx, rid="C19.R3"):
             ctx.r.ok(rid, "latch cleared only when the request completed (%s)" % a.func.name, a.loc)
         else:
             ctx.r.violation(rid, key_of(a.func, None, "latch-cleared-early"), "sent_continue is reset in %s although the request is not complete: a second 100 Continue can be sent" % a.func.qual, a.loc)
-    ctx.r.floor(rid, n, 1, "places where the latch is cleared")
+    # constructor stores do not count: the latch must be re-armed per request
+    n_rearm = len([a for a in accesses(p, "sent_continue", [chan]) if a.kind == "write" and a.func.name != "__init__"
+                   and isinstance(a.stmt, ast.Assign) and isinstance(a.stmt.value, ast.Constant) and a.stmt.value.value is False])
+    if n_rearm == 0:
+        ctx.r.violation(rid, "latch-never-cleared", "sent_continue is never reset after a request completed: the second expecting request on a connection gets no 100 Continue, its client never sends the body and the request is never answered", "src/waitress/channel.py")
 
 
 def rule_r4(ctx):
@@ -271,6 +275,7 @@ def rule_r7(ctx):
     before = len(ctx.r.violations)
     c04.rule_r2(ctx, rid=rid)
     c13.rule_r1(ctx, rid=rid)
+    c04.rule_r1(ctx, rid=rid)  # the interim bytes are appended *and flushed* inside the output lock
     new = [v for v in ctx.r.violations[before:] if "send_continue" in (v["key"] + v["msg"] + str(v.get("detail")))]
     # keep only violations that concern the interim sender; others belong to C04/C13
     ctx.r.violations[before:] = new
